@@ -65,7 +65,26 @@ func installHooks() {
 		}
 		return d.jitterDraw()
 	}
+	leader.VerifHeld = func(delta int) {
+		if inSample.Load() {
+			return
+		}
+		d := curDriver.Load()
+		if d == nil || d.free {
+			return
+		}
+		g := goid()
+		heldMu.Lock()
+		held[g] += delta
+		if held[g] <= 0 {
+			delete(held, g)
+		}
+		heldMu.Unlock()
+	}
 	leader.VerifYield = func(instanceID, site string) {
+		if inSample.Load() {
+			return
+		}
 		d := curDriver.Load()
 		if d == nil {
 			return
@@ -83,6 +102,21 @@ func (d *Driver) jitterDraw() uint64 {
 	f := float64(u<<11>>11) / (1 << 53)
 	d.h.Jitters = append(d.h.Jitters, &JitterEvt{T: d.now(), Step: d.step, U: u, F: f, GID: g, Caller: caller})
 	return u
+}
+
+// lock-held tracking (fed by the instrumented copy's verifHeld calls): a goroutine that holds a
+// library mutex is never parked - others would block on that mutex, which synctest does not
+// count as durably blocked, and the run would hang.
+var (
+	heldMu   sync.Mutex
+	held     = map[uint64]int{}
+	inSample atomic.Bool // the driver itself is calling into the library (Status() etc.)
+)
+
+func holdsLock(g uint64) bool {
+	heldMu.Lock()
+	defer heldMu.Unlock()
+	return held[g] > 0
 }
 
 func (d *Driver) yield(instanceID, site string) {
@@ -109,7 +143,15 @@ func (d *Driver) yield(instanceID, site string) {
 	if d.plan.Sched.StallMax > 0 && d.rYield.Bool(0.5) {
 		st = d.rYield.Dur(0, d.plan.Sched.StallMax)
 	}
-	y := &yieldReq{site: site, d: st, ch: make(chan struct{}), gid: goid(), inst: -1}
+	g := goid()
+	if g == d.driverGID || holdsLock(g) {
+		d.mu.Unlock()
+		return
+	}
+	if instanceID == "" {
+		st = 0 // pre-lock sites: pure reordering, never a stall
+	}
+	y := &yieldReq{site: site, d: st, ch: make(chan struct{}), gid: g, inst: -1}
 	for _, in := range d.insts {
 		if in.cfg.ID == instanceID {
 			y.inst = in.idx
@@ -172,8 +214,17 @@ func RunPlan(t *testing.T, p *Plan, keepLog bool) (res *Result) {
 		}()
 		synctest.Test(t, func(t *testing.T) {
 			d = newDriver(p, keepLog) // everything the bubble blocks on is created inside it
+			d.free = p.Sched.Free
 			curDriver.Store(d)
 			d.start = time.Now()
+			d.driverGID = goid()
+			heldMu.Lock()
+			held = map[uint64]int{}
+			heldMu.Unlock()
+			if d.free {
+				d.RunFree()
+				return
+			}
 			d.Run()
 			d.collectLeftover()
 		})
@@ -183,7 +234,9 @@ func RunPlan(t *testing.T, p *Plan, keepLog bool) (res *Result) {
 	uuid.SetRand(nil)
 	progress.Add(1)
 
-	d.judge()
+	if !p.Sched.Free {
+		d.judge()
+	}
 	res.LogHash = fmt.Sprintf("%016x", d.h.hash)
 	res.Viol = d.h.Viol
 	res.Stats = d.stats
